@@ -89,6 +89,46 @@ def lex_spans(dialect, text):
         return None
 
 
+def ref_strip_comments(text):
+    """Reference treatment of comments, independent of the lexers' patterns: outside quotes, `--` runs to the end of the
+    line and `/*` runs to the FIRST `*/`; an unterminated block comment is left alone.  Returns the text with each comment
+    replaced by one blank."""
+    out, i, n = [], 0, len(text)
+    while i < n:
+        ch = text[i]
+        if ch in ('\'', '"', '`'):
+            j = i + 1
+            while j < n:
+                if text[j] == '\\' and ch != '`' and j + 1 < n:
+                    j += 2
+                    continue
+                if text[j] == ch:
+                    if ch == "'" and j + 1 < n and text[j + 1] == "'":
+                        j += 2
+                        continue
+                    break
+                j += 1
+            out.append(text[i:j + 1])
+            i = j + 1
+        elif text.startswith('--', i):
+            j = text.find('\n', i)
+            j = n if j < 0 else j
+            out.append(' ')
+            i = j
+        elif text.startswith('/*', i):
+            j = text.find('*/', i + 2)
+            if j < 0:
+                out.append(text[i:])
+                i = n
+            else:
+                out.append(' ')
+                i = j + 2
+        else:
+            out.append(ch)
+            i += 1
+    return ''.join(out)
+
+
 GARBAGE = ['x y', ')', 'select', '1 2', ',', 'foo bar baz', '(', 'from']
 
 
@@ -176,6 +216,10 @@ def mutations(dialect, text, rng, limit=12):
     out.append(('concat2', text + ' ' + text))
     # comments around garbage / statements (the lexers drop comments; nothing else may be dropped)
     out.append(('cmt-garbage', text + ' /* a */ ' + g + ' /* b */'))
+    # comments whose body ends in stars / holds comment-like text: the comment ends at the FIRST */
+    cb = rng.choice([' a **', '*', '**', ' a *** ', ' -- x ', ' /* nested ', " ' quote ", ' a */ b /* c '])
+    out.append(('cmt-garbage-stars', text + ' /*' + cb + '*/ ' + g + ' /* b */'))
+    out.append(('cmt-stmt-stars', text + ' /*' + cb + '*/ ; ' + rng.choice(short_statements(dialect)) + ' /* b **/'))
     out.append(('cmt-garbage-line', text + ' -- a\n' + g + ' -- b'))
     out.append(('cmt-prefix', '/* a */ ' + g + ' /* b */ ' + text))
     out.append(('cmt-ok', '/* a */ ' + ' /* m */ '.join(toks) + ' /* z */'))
